@@ -254,10 +254,18 @@ def r1_mus(facts):
         if facts.view in ('noMUS',):
             return out
         raise build.AnalysisBroken('C01.R1: Convert_mus2midi not found')
-    ids = local_ids(fn)
-    if 'cur' not in ids or 'end' not in ids:
-        # find the pair by shape: two uint8_t* locals compared with each other
-        raise build.AnalysisBroken('C01.R1: cursor/end locals of Convert_mus2midi not found')
+    ids = {}
+    # the pair by shape: the main loop runs `while (a < b)` over two byte-pointer locals
+    for bid, blk in fn.cfg.blocks.items():
+        c = blk.get('cond')
+        if c is not None and blk.get('term') == 'WhileStmt':
+            sc = strip(c)
+            if sc.get('k') == 'BinaryOperator' and sc['op'] == '<':
+                l, r = strip(sc['l']), strip(sc['r'])
+                if l.get('k') == r.get('k') == 'DeclRefExpr' and (l.get('t') or {}).get('p') and (r.get('t') or {}).get('p') and not l.get('parm') and not r.get('parm'):
+                    ids = {'cur': l['id'], 'end': r['id']}
+    if not ids:
+        raise build.AnalysisBroken('C01.R1: cursor/end locals of Convert_mus2midi not found (no `while (a < b)` over two byte pointers)')
     a = Avail(fn, lambda e: e.get('k') == 'DeclRefExpr' and e.get('id') == ids['cur'], lambda e: e.get('k') == 'DeclRefExpr' and e.get('id') == ids['end'])
     ob = a.run()
     if len(ob) < 12:
